@@ -27,6 +27,19 @@ def rewrite(h, mapping):
             return rewrite(mapping[h], rest) if rest else mapping[h]
     except TypeError:
         pass
+    # a type variable stands for its bound / constraints, a NewType for its supertype: occurrences there count
+    # (beartype reduces both before looking overrides up; refsem.parse does the same)
+    if isinstance(h, typing.TypeVar):
+        if h.__bound__ is not None:
+            nb = rewrite(h.__bound__, mapping)
+            return h if nb is h.__bound__ else typing.TypeVar(h.__name__, bound=nb)
+        if h.__constraints__:
+            nc = tuple(rewrite(c, mapping) for c in h.__constraints__)
+            return h if all(a is b for a, b in zip(nc, h.__constraints__)) else typing.TypeVar(h.__name__, *nc)
+        return h
+    if hasattr(h, '__supertype__') and callable(h):
+        ns = rewrite(h.__supertype__, mapping)
+        return h if ns is h.__supertype__ else typing.NewType(h.__name__, ns)
     # a PEP 695 alias is transparent: it stands for its value, occurrences inside it count
     TAT = getattr(typing, 'TypeAliasType', None)
     if TAT is not None and isinstance(h, TAT):
@@ -141,6 +154,10 @@ def _mentions(h, target):
         pass
     if typing.get_origin(h) is Literal:
         return False
+    if isinstance(h, typing.TypeVar):
+        return any(_mentions(b, target) for b in ((h.__bound__,) if h.__bound__ is not None else h.__constraints__))
+    if hasattr(h, '__supertype__') and callable(h):
+        return _mentions(h.__supertype__, target)
     TAT = getattr(typing, 'TypeAliasType', None)
     if TAT is not None and isinstance(h, TAT):
         return False if refsem._mentions_alias(h.__value__, h) else _mentions(h.__value__, target)
